@@ -46,9 +46,14 @@ ASSUMPTIONS = [
 
 
 def canon(case):
-    return "flags=%s imports=%s" % (
+    key = "flags=%s imports=%s" % (
         "|".join("".join("P" if f else "p" for f in fl) for fl in case["flags"]),
         "|".join(",".join(str(j) for j in im) for im in case["imports"]))
+    # where the import lines stand among the declarations (only named when it is not "first", so that the keys of
+    # the sets with leading imports stay what they were)
+    if any(case.get("ipos", [])):
+        key += " ipos=%s" % "|".join(str(x) for x in case["ipos"])
+    return key
 
 
 UNDEF = {"fn": 401, "const": 402, "struct": 405}
